@@ -230,3 +230,82 @@ Proof.
   apply (pct_chain K (2 * thr + 1) e t (fst E) (snd E) (fst T) (snd T) (fst Q) (snd Q) (fst R) (snd R));
     try assumption; try exact K_gt1.
 Qed.
+
+(* ------------------------------------------------------------------ the reject side *)
+Lemma pct_chain_up (k c e t En Ed Tn Td Qn Qd Rn Rd : Z) :
+  1 < k -> 0 < e -> 0 < t ->
+  0 < En -> 0 < Ed -> 0 < Tn -> 0 < Td -> 0 < Qn -> 0 < Qd -> 0 < Rn -> 0 < Rd ->
+  k * (En * 1) <= (k + 1) * (e * Ed) ->
+  (k - 1) * (t * Td) <= k * (Tn * 1) ->
+  k * (Qn * (Ed * Tn)) <= (k + 1) * (En * Td * Qd) ->
+  k * (Rn * (Qd * 1)) <= (k + 1) * (Qn * 100 * Rd) ->
+  c * Rd <= 2 * Rn ->
+  c * (k * k * (k - 1)) * t <= 200 * ((k + 1) * (k + 1) * (k + 1)) * e.
+Proof.
+  intros Hk He Ht HEn HEd HTn HTd HQn HQd HRn HRd H1 H2 H3 H4 H5.
+  destruct (Z.le_gt_cases c 0) as [Hc|Hc]; [nia|].
+  (* A *)
+  assert (HA : c * k * Qd <= 200 * (k + 1) * Qn).
+  { apply (Z.mul_le_mono_pos_r _ _ Rd HRd).
+    assert (c * Rd * (k * Qd) <= 2 * Rn * (k * Qd)) by (apply Z.mul_le_mono_nonneg_r; nia).
+    nia. }
+  (* B *)
+  assert (HB : c * (k * k) * (Ed * Tn) <= 200 * ((k + 1) * (k + 1)) * (En * Td)).
+  { apply (Z.mul_le_mono_pos_r _ _ Qd HQd).
+    assert (c * k * Qd * (k * (Ed * Tn)) <= 200 * (k + 1) * Qn * (k * (Ed * Tn)))
+      by (apply Z.mul_le_mono_nonneg_r; nia).
+    assert (200 * (k + 1) * (k * (Qn * (Ed * Tn))) <= 200 * (k + 1) * ((k + 1) * (En * Td * Qd)))
+      by (apply Z.mul_le_mono_nonneg_l; nia).
+    nia. }
+  (* C *)
+  assert (HC : c * (k * k * k) * Tn <= 200 * ((k + 1) * (k + 1) * (k + 1)) * (e * Td)).
+  { apply (Z.mul_le_mono_pos_r _ _ Ed HEd).
+    assert (c * (k * k) * (Ed * Tn) * k <= 200 * ((k + 1) * (k + 1)) * (En * Td) * k)
+      by (apply Z.mul_le_mono_nonneg_r; lia).
+    assert (200 * ((k + 1) * (k + 1)) * Td * (k * (En * 1))
+            <= 200 * ((k + 1) * (k + 1)) * Td * ((k + 1) * (e * Ed)))
+      by (apply Z.mul_le_mono_nonneg_l; nia).
+    nia. }
+  (* D *)
+  apply (Z.mul_le_mono_pos_r _ _ Td HTd).
+  assert (c * (k * k) * ((k - 1) * (t * Td)) <= c * (k * k) * (k * (Tn * 1)))
+    by (apply Z.mul_le_mono_nonneg_l; nia).
+  nia.
+Qed.
+
+Lemma fl53_upper n d : 0 < n -> 0 < d ->
+  0 < fst (fl53 n d) /\ 0 < snd (fl53 n d)
+  /\ (K - 1) * (n * snd (fl53 n d)) <= K * (fst (fl53 n d) * d)
+  /\ K * (fst (fl53 n d) * d) <= (K + 1) * (n * snd (fl53 n d)).
+Proof. exact (fl53_lower n d). Qed.
+
+Lemma fround_gt (rn rd thr : Z) : 0 < rd -> thr < fround (rn, rd) -> (2 * thr + 1) * rd <= 2 * rn.
+Proof.
+  intros Hd. unfold fround. cbn [fst snd]. intro H.
+  pose proof (Z.div_mod (2 * rn + rd) (2 * rd) ltac:(lia)) as Hdm.
+  pose proof (Z.mod_pos_bound (2 * rn + rd) (2 * rd) ltac:(lia)) as Hr.
+  nia.
+Qed.
+
+(* a percentage that fails the comparison is, in exact arithmetic, at least thr + 1/2 up to the
+   factor K^2 (K-1) / (K+1)^3 *)
+Lemma pct_float_reject_bound e t thr : 0 < e -> 0 < t -> thr < pct_float e t ->
+  (2 * thr + 1) * (K * K * (K - 1)) * t <= 200 * ((K + 1) * (K + 1) * (K + 1)) * e.
+Proof.
+  intros He Ht. unfold pct_float.
+  rewrite (Z.sgn_pos e He), (Z.sgn_pos t Ht), (Z.abs_eq e), (Z.abs_eq t) by lia.
+  rewrite !Z.mul_1_l. unfold f_of_int, fdiv, fmul. cbn [fst snd].
+  destruct (fl53_lower e 1 He ltac:(lia)) as (HEn & HEd & _ & HE2).
+  destruct (fl53_lower t 1 Ht ltac:(lia)) as (HTn & HTd & HT1 & _).
+  set (E := fl53 e 1) in *. set (T := fl53 t 1) in *.
+  assert (Hqn : 0 < fst E * snd T) by nia. assert (Hqd : 0 < snd E * fst T) by nia.
+  destruct (fl53_lower _ _ Hqn Hqd) as (HQn & HQd & _ & HQ2).
+  set (Q := fl53 (fst E * snd T) (snd E * fst T)) in *.
+  assert (Hrn : 0 < fst Q * 100) by lia. assert (Hrd : 0 < snd Q * 1) by lia.
+  destruct (fl53_lower _ _ Hrn Hrd) as (HRn & HRd & _ & HR2).
+  set (R := fl53 (fst Q * 100) (snd Q * 1)) in *.
+  intro Hrej. rewrite (surjective_pairing R) in Hrej.
+  apply (fround_gt _ _ _ HRd) in Hrej.
+  apply (pct_chain_up K (2 * thr + 1) e t (fst E) (snd E) (fst T) (snd T) (fst Q) (snd Q) (fst R) (snd R));
+    try assumption; try exact K_gt1.
+Qed.
